@@ -10,11 +10,13 @@ CLAIM = ('Decides statically, for all flag combinations and all instantiations a
          'exceptions; dealloc pointers are set before anything can throw; partial objects are value-initialised and release functions tolerate them; every owned resource '
          '(cache/dataset memory, scratchpad, JIT pages, cache->jit, VM objects) is released by the matching call with the same allocator and size. '
          'Process growth itself (allocator and kernel behaviour) is not observed.'
-         ' A constructor that maps a code buffer performs nothing that can throw after the mapping succeeded (x86, A64 and RV64 compilers; LIFE-CTOR); failed allocations surface as exceptions on every path on which the result is null (LIFE-ALLOCNULL, path-based).')
+         ' A constructor that maps a code buffer performs nothing that can throw after the mapping succeeded (x86, A64 and RV64 compilers; LIFE-CTOR); failed allocations surface as exceptions on every path on which the result is null (LIFE-ALLOCNULL, path-based).'
+         ' Every expression of the three creating functions that can raise (operator new, throwing std:: members such as a std::string copy, calls into library code that throws) lies inside the try block (LIFE-TRY, generalised); the library keeps no mutable global state that a failed request could latch (RACE-GLOBALS).')
 LEVEL_NOTE = ('Trusted: clang AST; _mm_malloc/_mm_free/mmap/munmap behave as documented (free(NULL) is a no-op); exceptions propagate only from the listed throw sites and from operator new '
               '(std::bad_alloc derives from std::exception). Unverified observation: munmap of a hugetlb mapping with a length that is not a multiple of the huge page size (DatasetSize) '
               'fails on Linux - cannot be exercised here (no huge pages), see DESIGN.md.')
-EXPLANATION = 'LIFE-TRY, LIFE-THROW, LIFE-ALLOCNULL, LIFE-ORDER, LIFE-VALUEINIT, LIFE-NULL, LIFE-PAIR over randomx.cpp, allocator.cpp, dataset.cpp/.hpp, virtual_machine.cpp, vm_*.hpp, jit_compiler_x86.cpp, virtual_memory.c. LIFE-CTOR.'
+EXPLANATION = ('LIFE-TRY, LIFE-THROW, LIFE-ALLOCNULL, LIFE-ORDER, LIFE-VALUEINIT, LIFE-NULL, LIFE-PAIR over randomx.cpp, allocator.cpp, dataset.cpp/.hpp, virtual_machine.cpp, vm_*.hpp, jit_compiler_x86.cpp, virtual_memory.c. LIFE-CTOR.'
+         ' RACE-GLOBALS.')
 
 
 def run(ctx, R):
